@@ -672,14 +672,19 @@ func packageErrorsFirstRule(p *Prog, r *Report, id string) {
 
 func outputPackageRule(p *Prog, r *Report, id string) {
 	r.Rule(id, "output:package as written takes precedence: config.resolveOutputPackage assigns OutputPackagePath / OutputPackageName only under `<that field> == \"\"`, and it obtains the existing package without going through the error-checking loader (pkgload.getPkg) — the package at the output location normally does not type-check while its generated file is excluded, and its name must still be reused", 3)
-	fi := p.Func("config.resolveOutputPackage")
+	fi := p.anchorOrCaller("config.resolveOutputPackage")
 	if fi == nil {
 		r.Unresolved("config.resolveOutputPackage")
 		return
 	}
 	info := fi.Pkg.TypesInfo
 	n := 0
-	for _, rf := range p.Region("config.resolveOutputPackage") {
+	inlined := fi.Name() != "config.resolveOutputPackage"
+	region := []*FuncInfo{fi} // inlined into its caller: that function's own body only
+	if !inlined {
+		region = p.Region("config.resolveOutputPackage")
+	}
+	for _, rf := range region {
 		walkStack(rf.Decl.Body, func(nd ast.Node, stack []ast.Node) bool {
 			as, ok := nd.(*ast.AssignStmt)
 			if !ok {
@@ -734,7 +739,16 @@ func outputPackageRule(p *Prog, r *Report, id string) {
 		r.Bad("config.resolveOutputPackage/assignments", p.PosStr(fi.Decl.Pos()), "no assignment of OutputPackagePath/OutputPackageName found")
 	}
 	// must not reach the checked loader
-	if sf := p.SSAFunc(fi); sf != nil {
+	if inlined {
+		// the caller goes on to parse the methods (which uses the checking loader, rightly): judge the lookup itself
+		unchecked := len(findCalls(info, fi.Decl, modPath+"/pkgload", "PackageLoader", "GetUncheckedPkg")) > 0
+		checked := len(findCalls(info, fi.Decl, modPath+"/pkgload", "PackageLoader", "getPkg"))+len(findCalls(info, fi.Decl, modPath+"/pkgload", "PackageLoader", "GetOneRaw")) > 0
+		if unchecked && !checked {
+			r.OK("config.resolveOutputPackage/unchecked lookup", p.PosStr(fi.Decl.Pos()), "the existing package is obtained with GetUncheckedPkg")
+		} else {
+			r.Bad("config.resolveOutputPackage/unchecked lookup", p.PosStr(fi.Decl.Pos()), "the package at the output location is not obtained with GetUncheckedPkg: an existing but (temporarily) ill-typed output package would not be reused and the file gets a guessed package clause")
+		}
+	} else if sf := p.SSAFunc(fi); sf != nil {
 		reach := p.Reachable(p.CHA(), sf)
 		bad := ""
 		for f := range reach {
